@@ -29,8 +29,8 @@ type c07Step struct {
 	InvOp   string     `json:"invop,omitempty"`
 	// Around: the invalid definition also reaches a pool type (index Around-1), at a field id below
 	// the invalid member: a failed registration then passes through a type other pool members nest
-	Around int `json:"around,omitempty"`
-	Fresh   bool       `json:"fresh,omitempty"` // also compare with the same call made first in a fresh process
+	Around int  `json:"around,omitempty"`
+	Fresh  bool `json:"fresh,omitempty"` // also compare with the same call made first in a fresh process
 }
 
 type c07Case struct {
